@@ -378,12 +378,19 @@ Proof.
     specialize (Hh0 L). unfold Hn in Hh0. rewrite H in Hh0. lia.
 Qed.
 
-(* F40: update() of the public CLOSED constant reaches unreachable!() *)
-Lemma p_c17_update_closed_const_refuted :
-  exists s, closed_const = Some s /\ fst (tstep (CUpdate s) PStart sh_init) = PPanic.
-Proof. eexists. split; reflexivity. Qed.
+(* F40 (repaired): every public state constant of state.rs (HANDSHAKE_CONFIRMED, CLOSING, DRAINING,
+   CLOSED) has a row in the table, CLOSED among them *)
+Lemma p_c17_public_consts :
+  Forall (fun s => exists k, encode s = Some k) public_consts /\
+  (exists s, closed_const = Some s /\ In s public_consts /\ encode s = Some closed_code).
+Proof.
+  split.
+  - vm_compute. repeat constructor; eexists; reflexivity.
+  - eexists. split; [reflexivity|]. split; [vm_compute; tauto|reflexivity].
+Qed.
 
-(* and that is the only way update() panics: every state with a table row is fine *)
+(* update() of a state with a table row never panics, returns, and is a forward move: it either
+   returns None and leaves the word alone, or returns the previous code, which is below the new one *)
 Lemma p_c17_update_total : forall s sh k, encode s = Some k ->
   fst (run_to_end 8 (CUpdate s) PStart sh) <> PPanic /\
   exists r, fst (run_to_end 8 (CUpdate s) PStart sh) = PDone r.
@@ -392,6 +399,30 @@ Proof.
   destruct (update_rejects k (word sh)); cbn [run_to_end fst].
   - split; [discriminate|eauto].
   - rewrite N.eqb_refl. cbn [after_cas run_to_end fst]. split; [discriminate|eauto].
+Qed.
+
+Lemma p_c17_update_forward : forall s sh k, encode s = Some k ->
+  let r := run_to_end 8 (CUpdate s) PStart sh in
+  (fst r = PDone None /\ snd r = sh /\ k <= word sh) \/
+  (fst r = PDone (Some (word sh)) /\ word sh < k /\ word (snd r) = k).
+Proof.
+  intros s sh k E. cbn [run_to_end tstep target]. rewrite E. cbn [run_to_end tstep].
+  unfold update_rejects. destruct (N.leb_spec k (word sh)); cbn [run_to_end fst snd].
+  - left. auto.
+  - rewrite N.eqb_refl. cbn [after_cas run_to_end fst snd word]. right. auto.
+Qed.
+
+(* hence update() of every PUBLIC constant is total and forward *)
+Lemma p_c17_update_public : forall s sh, In s public_consts ->
+  exists k, encode s = Some k /\
+  let r := run_to_end 8 (CUpdate s) PStart sh in
+  fst r <> PPanic /\
+  ((fst r = PDone None /\ snd r = sh /\ k <= word sh) \/
+   (fst r = PDone (Some (word sh)) /\ word sh < k /\ word (snd r) = k)).
+Proof.
+  intros s sh H. destruct p_c17_public_consts as [F _]. rewrite Forall_forall in F.
+  destruct (F s H) as [k E]. exists k. split; [exact E|]. cbv zeta.
+  split; [apply (p_c17_update_total s sh k E)|apply p_c17_update_forward; exact E].
 Qed.
 
 (* a racing pair: local close vs the peer's CONNECTION_CLOSE — under every schedule exactly one of
